@@ -211,6 +211,41 @@ static void solver_case(rng_t *r, int q, int p, int L, int deficient)
 	rep_case_done(1, 0, 1);
 }
 
+/* rows wider than 31 / 32 / 255 words with whole byte lanes set: word-wise popcounts that accumulate per-byte sums overflow there */
+static void wide_case(int C, int pattern, rng_t *r)
+{
+	if (!rep_case("wide dense matrix 3x%d pattern=%d", C, pattern)) return;
+	of_mod2dense *m = of_mod2dense_allocate(3, (UINT32)C); uint8_t *row = calloc((size_t)C + 1, 1);
+	for (int i = 0; i < 3; i++) {
+		long w = 0;
+		for (int j = 0; j < C; j++) {
+			int b;
+			switch ((pattern + i) % 5) {
+			case 0: b = 1; break;                                        /* all ones */
+			case 1: b = (j % 32) < 8; break;                             /* byte lane 0 of every word */
+			case 2: b = (j % 32) >= 24; break;                           /* byte lane 3 */
+			case 3: b = rng_below(r, 16) != 0; break;                    /* dense random */
+			default: b = (j / 32) % 2 == 0; break;                       /* every other word full */
+			}
+			row[j] = (uint8_t)b; w += b;
+			if (b) of_mod2dense_set(m, (UINT32)i, (UINT32)j, 1);
+		}
+		g_op = "row_weight";
+		if ((long)of_mod2dense_row_weight(m, (UINT32)i) != w) vio("row_weight(%d) = %u on a %d-column row of weight %ld (pattern %d)", i, of_mod2dense_row_weight(m, (UINT32)i), C, w, (pattern + i) % 5);
+		g_op = "hweight_array";
+		if ((long)of_hweight_array((UINT32 *)m->row[i], C) != w) vio("of_hweight_array = %u on a %d-column row of weight %ld", of_hweight_array((UINT32 *)m->row[i], C), C, w);
+		g_op = "row_weight_ignore_first";
+		for (int ign = 0; ign < C; ign += 32 * (1 + C / 320)) { long wi = 0; for (int j = ign; j < C; j++) wi += row[j]; if ((long)of_mod2dense_row_weight_ignore_first(m, (UINT32)i, (UINT32)ign) != wi) { vio("row_weight_ignore_first(%d) on a %d-column row", ign, C); break; } }
+		g_op = "row_is_empty";
+		if ((of_mod2dense_row_is_empty(m, (UINT32)i) ? 1 : 0) != (w == 0)) vio("row_is_empty on a %d-column row of weight %ld", C, w);
+		g_ops += 4;
+	}
+	g_op = "col_weight";
+	for (int j = 0; j < C; j += 1 + C / 97) { unsigned cw = 0; for (int i = 0; i < 3; i++) cw += of_mod2dense_get(m, (UINT32)i, (UINT32)j) ? 1u : 0u; if (of_mod2dense_col_weight(m, (UINT32)j) != cw) { vio("col_weight(%d) of a 3x%d matrix", j, C); break; } }
+	of_mod2dense_free(m); free(row);
+	rep_case_done(1, 0, 1);
+}
+
 /* several systems solved with ONE control block (as a long-lived caller would keep it); every earlier solution is checked again
  * after each later solve, and the second system of a chain takes the first one's solution buffers as its right-hand sides */
 static void solver_chain(rng_t *r, int nsys)
@@ -290,6 +325,13 @@ int p_c18(void)
 		rng_t r = rng_make(g_run.seed, 1885 + (uint64_t)u, 18);
 		for (int s2 = 0; s2 < (T ? 400 : 40); s2++) solver_chain(&r, 2 + (int)rng_below(&r, 3));
 	}
+	rep_unit(unit);
+	if (rep_unit_mine(unit)) {
+		rng_t r = rng_make(g_run.seed, 1887, 18);
+		static const int WC[] = { 992, 993, 1023, 1024, 1025, 2048, 4100, 8160, 8192, 16321, 50000 };
+		for (unsigned c = 0; c < sizeof WC / sizeof WC[0]; c++) for (int pat = 0; pat < 5; pat++) { if (!T && (WC[c] > 9000 || (WC[c] > 2048 && pat > 1))) continue; wide_case(WC[c], pat, &r); }
+	}
+	unit++;
 	/* tall systems: more equations than a 16-bit row index can address (and the 2^15 line) */
 	{
 		static const int tall[][3] = { {65537, 24, 16}, {66000, 31, 8}, {70000, 40, 8}, {32769, 33, 4}, {131100, 20, 5}, {65536, 24, 3} };
